@@ -51,7 +51,8 @@ func verifAssert(b bool, id string) {
 		verifFailures = append(verifFailures, id)
 	}
 }
-func verifAssertCut(b bool, id string) { verifAssert(b, id) }
+func verifAssertCut(b bool, id string)  { verifAssert(b, id) }
+func verifAssertHard(b bool, id string) { verifAssert(b, id) }
 func verifReach(id string)              {}
 func verifChoose(n int) int             { return int(verifNext()) % n }
 func verifSplit(n int) int              { return int(verifNext()) % n }
